@@ -556,7 +556,9 @@ class Manager:
             channels = (None,)
 
         for channel in channels:
-            _on_event_handler = self.addHandler(handler(event_name, channel=channel)(_on_event))
+            # (first of all handlers: one that stop()s the event must not keep
+            # the wait from being armed)
+            _on_event_handler = self.addHandler(handler(event_name, channel=channel, priority=float('inf'))(_on_event))
             _on_done_handler = self.addHandler(handler('%s_done' % event_name, channel=channel)(_on_done))
             if state.timeout >= 0:
                 _on_tick_handler = state.tick_handler = self.addHandler(handler('generate_events', channel=channel)(_on_tick))
